@@ -654,8 +654,10 @@ where
                 continue;
             }
             let fp = fp_of(&verdict, T::head());
+            // a crash is De's unbounded recursion whatever produced the value: one fingerprint family
+            let family = if kind == "ser-de" && !verdict.starts_with("crash") { "serde-rt" } else { "de" };
             cx.out.oracle_fail(
-                &format!("{}:{}", if kind == "ser-de" { "serde-rt" } else { "de" }, fp),
+                &format!("{}:{}", family, fp),
                 &format!("{}: {} {}: {}", name, clip(&val), if kind == "ser-de" { "through Ser then De" } else { "marshalled, then read with De" }, verdict),
                 replay(kind),
             );
